@@ -5,6 +5,7 @@ import (
 	"go/ast"
 	"go/token"
 	"go/types"
+	"strconv"
 )
 
 // TypeConverter handles conversion of types.Type to ast.Expr with proper package qualifiers.
@@ -185,6 +186,19 @@ func (tc *TypeConverter) TypeToExpr(t types.Type) ast.Expr {
 			Dir:   dir,
 			Value: tc.TypeToExpr(typ.Elem()),
 		}
+	case *types.Struct:
+		fields := make([]*ast.Field, 0, typ.NumFields())
+		for i := 0; i < typ.NumFields(); i++ {
+			field := &ast.Field{Type: tc.TypeToExpr(typ.Field(i).Type())}
+			if !typ.Field(i).Embedded() {
+				field.Names = []*ast.Ident{ast.NewIdent(typ.Field(i).Name())}
+			}
+			if tag := typ.Tag(i); tag != "" {
+				field.Tag = &ast.BasicLit{Kind: token.STRING, Value: strconv.Quote(tag)}
+			}
+			fields = append(fields, field)
+		}
+		return &ast.StructType{Fields: &ast.FieldList{List: fields}}
 	case *types.Signature:
 		funcType := &ast.FuncType{Params: tc.tupleToFieldList(typ.Params(), typ.Variadic())}
 		if typ.Results().Len() > 0 {
